@@ -635,6 +635,18 @@ func (g *decGen) httpFilter() *v3httppb.HttpFilter {
 		lrl := &ratelimitv3.LocalRateLimit{StatPrefix: "x"}
 		if !g.r.chance(20) {
 			lrl.TokenBucket = &typedv3.TokenBucket{MaxTokens: uint32(1 + g.r.intn(1000)), TokensPerFill: g.optU32(20)}
+			// the fill interval is not part of what the decoder keeps (tokens per fill is taken as sent), whatever it is:
+			// absent, empty, below a second, whole seconds
+			switch g.r.intn(6) {
+			case 0:
+				lrl.TokenBucket.FillInterval = &durationpb.Duration{}
+			case 1:
+				lrl.TokenBucket.FillInterval = durationpb.New(50 * time.Millisecond)
+			case 2:
+				lrl.TokenBucket.FillInterval = durationpb.New(500 * time.Millisecond)
+			case 3:
+				lrl.TokenBucket.FillInterval = durationpb.New(time.Duration(1+g.r.intn(90)) * time.Second)
+			}
 		}
 		g.hit("hf.ratelimit")
 		return &v3httppb.HttpFilter{Name: "rl", ConfigType: &v3httppb.HttpFilter_TypedConfig{TypedConfig: g.maybeCorrupt(mustAny(lrl), 4)}}
